@@ -46,7 +46,7 @@ def histories(rnd, count, nops, types):
                 sc.append('sanitise')
             else:
                 for _ in range(rnd.randint(1, 5)):     # corruption burst, then sanitise before checked operations resume
-                    ar = rnd.choice(t['areas'])
+                    ar = rnd.choice([x for x in t['areas'] if x[1] > 0])
                     sc.append('corrupt %d %d' % (rnd.randint(ar[0], ar[0] + ar[1] - 1), rnd.choice([0, 1, 0xFFFF, 0x7F80, 0x7FF0, rnd.randint(0, 0xFFFF)])))
                 sc.append('sanitise')
         yield rebased(sc, rnd, 0.3)
